@@ -87,7 +87,7 @@ theorem graph_notProd (np : Nat) (adj : Nat → Nat → Bool) (hirr : ∀ i, adj
   · rw [← (hS p hp).2, hZ p hp, hSp]; rfl
 
 /-- **the loop invariant holds at the start of the loop** -/
-theorem rinv_init (target : STab) (hg : target.Good) (hi : target.Indep) (ne : Nat)
+theorem rinv_init (target : STab) (hg : target.Good) (hi : target.LinIndep) (ne : Nat)
     (hdet : determineNEmitters target = .ok ne) (hnp : ∀ p, p < target.n → target.NotProd p) :
     RInv target.n ne target.n { np := target.n, ne := ne, t := withEmitters target ne, circ := [] } := by
   obtain ⟨g0, n0⟩ := withEmitters_good target hg ne
